@@ -112,6 +112,7 @@ type fnCtx struct {
 	strlits map[string]string
 	flags   map[string]string
 	fired   map[int]bool
+	sweepOnly bool
 	modWhole map[string]bool
 	modPrecise map[string][]string
 	anchorLines map[int][]int
